@@ -151,6 +151,12 @@ def case_pointer(ctx, case):
     if form == "const":
         d = C.Pointer(target, mk(x))
         kw = {}
+    elif form == "expr":
+        # the target assembled from two fields with shift and bitwise or, (hi << 1) | lo, as segment:offset formats do
+        if target < 0:
+            return
+        d = C.Pointer((C.this._params.hi << 1) | C.this._params.lo, mk(x))
+        kw = {"hi": target >> 1, "lo": target & 1}
     else:
         d = C.Pointer(C.this._params.t, mk(x))
         kw = {"t": target}
@@ -782,7 +788,7 @@ def run(ctx):
                 blob = b"\x10\x11\x12" + c + b"\x20\x21" + c[:max(0, len(c) - 1)]
                 for target in (0, 3, 4, len(blob) - len(c) + 1, -len(c) + 1 - 0, -(len(c) - 1 + 2 + len(c)), -1, -len(blob)):
                     for start in (0, 1, 5):
-                        for form in ("const", "ctx", "aux", "region"):
+                        for form in ("const", "ctx", "aux", "region", "expr"):
                             run_case(ctx, {"kind": "pointer", "member": job[1], "data": tag(blob), "target": target, "offset": start, "form": form})
         elif kind == "select-foreign":
             ins = inputs_for([job[2]], rng) + [b"\x05junk!", b"\x03abc", b"\x00", b"\x07\x01\x02", b"\x09\x09\x09\x09", b"\x02x\x9c\x01", bytes([8]) + __import__("zlib").compress(b"")]
